@@ -164,10 +164,19 @@ func badIdent(g *gen, rule string) (Ident, string) {
 	case "dn-missing-c", "dn-missing-st", "dn-missing-o":
 		drop := map[string]string{"dn-missing-c": "C", "dn-missing-st": "ST", "dn-missing-o": "O"}[rule]
 		var k dn
+		// the attribute is left out - or written out with nothing in it ("C="): an attribute
+		// without a value does not say what the country, state or organisation is
+		w = "left-out"
+		if chance(g.rt, "writtenEmpty", 2) {
+			w = "written-with-empty-value"
+		}
 		for i, a := range d.attrs {
 			if a.Type != drop {
 				k.attrs = append(k.attrs, a)
 				k.rdns = append(k.rdns, d.rdns[i])
+			} else if w == "written-with-empty-value" {
+				k.attrs = append(k.attrs, a)
+				k.rdns = append(k.rdns, rdn{d.rdns[i].typ, ""})
 			}
 		}
 		text = pre + g.render(k)
